@@ -182,6 +182,18 @@ def gen_case(rng, span=4.0):
         args["temp"] = 20.0 if u < 0.1 else (rng.uniform(0.5, 400.0) if u < 0.6 else lu(rng, -3, 3))
         if rng.random() < 0.05:
             args["temp"] = int(args["temp"]) + 1
+    forms = {}
+    if rng.random() < 0.06:
+        # the same numbers as numpy integer scalars (a logged temperature column with a compact dtype, dimensions counted in mm):
+        # a temperature is a temperature whatever its storage type, and 5 degC is below the 20 degC reference
+        args["temp"] = rng.choice([rng.randint(1, 19), rng.randint(1, 120)])
+        forms["temp"] = rng.choice(["uint8", "uint16", "uint32", "uint64", "int8", "int16", "int32", "int64"])
+        if ints and rng.random() < 0.5:
+            for p in req:
+                if isinstance(args[p], int):
+                    forms[p] = rng.choice(["uint16", "uint32", "int32", "int64"])
+    if forms:
+        return {"fn": fn, "args": args, "k": lu(rng, -2, 2), "np": forms}
     if rng.random() >= 0.3:
         args["tcr"] = lu(rng, -8, math.log10(2e-2))
     return {"fn": fn, "args": args, "k": lu(rng, -2, 2)}
@@ -223,6 +235,10 @@ class Impl:
 
     def call(self, fn, **kw):
         """-> float, or ('raises', 'Class: msg')"""
+        forms = getattr(self, "forms", None)
+        if forms:
+            import numpy
+            kw = {k: (getattr(numpy, forms[k])(v) if k in forms and isinstance(v, int) and not isinstance(v, bool) else v) for k, v in kw.items()}
         try:
             r = getattr(self.mod, fn)(**kw)
         except Exception as e:           # every exception on positive arguments contradicts "returns ..."
@@ -236,6 +252,7 @@ class Impl:
 def oracle(ctx, im, c):
     """the property's statement on the implementation's own return values; returns the value of the call as given"""
     fn, given, k = c["fn"], c["args"], c["k"]
+    im.forms = c.get("np")         # arguments passed as numpy integer scalars of that dtype (wherever they keep their given value)
     fa = full_args(c)
     dflt = {"rho": float(DOC_RHO), "temp": 20.0, "tcr": float(DOC_TCR)}
     ex = {p: given.get(p, dflt.get(p)) for p in SIG[fn][0] + SIG[fn][1] if p in given or p in dflt}   # every keyword explicit
@@ -321,6 +338,8 @@ def histogram(ctx, c, r):
     ctx.stats["temp:" + ("=20" if t == 20 else ("<20" if t < 20 else ">20"))] += 1
     if any(isinstance(v, int) for v in a.values()):
         ctx.stats["int_args"] += 1
+    for k_, d_ in (c.get("np") or {}).items():
+        ctx.stats["numpy_scalar:%s:%s" % ("temp" if k_ == "temp" else "dimension", d_)] += 1
     if isinstance(r, float) and r > 0 and math.isfinite(r):
         ctx.stats["R:1e%+03d" % (3 * math.floor(math.log10(r) / 3))] += 1
 
@@ -373,7 +392,7 @@ def search(ctx):
 
 def replay(ctx, data):
     c = data["case"]
-    c = {"fn": c["fn"], "args": dict(c["args"]), "k": c.get("k", 2.5)}
+    c = {"fn": c["fn"], "args": dict(c["args"]), "k": c.get("k", 2.5), **({"np": c["np"]} if c.get("np") else {})}
     try:
         stream(ctx, [c], use_lean=True)
     except RuntimeError as e:        # a replay of an oracle failure does not need the evaluator
